@@ -1,11 +1,142 @@
 import Driver.Util
-/- line-protocol commands of the Journal family (stub: filled in by the family's build) -/
+import AsyncFix.Model.JournalDB
+/-!
+Line-protocol commands of the Journal family (`jrn.*`).
+
+One driver process = a sequence of *journal processes* on one database file:
+  jrn.start <fuel|->      new empty file, new process: `Journaler(file)`; the process dies after
+                          `fuel` execute()/commit() calls (`-` = never)
+  jrn.restart <fuel|->    the running process is gone (crash or close): new process on the same file
+  jrn.col xT xS           create_or_load
+  jrn.sessions            sessions()
+  jrn.persist K O I <in|out> xMSG          persist_msg with a FIXSession(key=K, next_num_out=O, next_num_in=I)
+  jrn.set K O I <n|-> <n|->                set_seq_num(session, next_num_out, next_num_in)
+  jrn.rec K <in|out> B B                   recover_messages; bound B = n<int> | x<utf8 hex>
+  jrn.rec1 K <in|out> B                    recover_msg
+  jrn.getall <-|[]|k,k,…> <-|in|out>       get_all_msgs
+  jrn.calls               execute()/commit() calls made by the current process so far
+  jrn.findseq xMSG        Journaler.find_seq_no
+  jrn.textval xTEXT       how SQLite compares that text parameter with the INTEGER column
+Replies of method calls end in ` tx=0|1` (conn.in_transaction); `dead` once the process has died.
+-/
 namespace Driver.Journal
+open AsyncFix.Model.Journal
 
 structure St where
-  unit : Unit := ()
+  conn : Conn := {}
+  fuel : Option Nat := none
+  dead : Bool := true
+  calls : Nat := 0
+
+def kindStr : Kind → String
+  | .fixMessage => "FIXMessage" | .duplicateSeqNo => "DuplicateSeqNo" | .assertion => "Assertion"
+  | .overflow => "Overflow" | .integrity => "Integrity" | .stopIteration => "StopIteration"
+  | .internal => "Internal"
+
+def handleStr (h : Handle) : String :=
+  s!"{h.key}:{Driver.strTok h.target}:{Driver.strTok h.sender}:{h.nextOut}:{h.nextIn}"
+
+def resStr : Res → String
+  | .none => "none"
+  | .handle h => "h " ++ handleStr h
+  | .dict d => "d " ++ ",".intercalate (d.map fun e =>
+      s!"{Driver.strTok e.1.1}/{Driver.strTok e.1.2}={handleStr e.2}")
+  | .msgs ms => "m " ++ ",".intercalate (ms.map Driver.bytesTok)
+  | .msg (some m) => "o " ++ Driver.bytesTok m
+  | .msg none => "o none"
+  | .rows rs => "r " ++ ",".intercalate (rs.map fun (a, m, d, s) => s!"{a}:{Driver.bytesTok m}:{d}:{s}")
+  | .set h none => s!"s {h.nextOut}:{h.nextIn} ok"
+  | .set h (some k) => s!"s {h.nextOut}:{h.nextIn} {kindStr k}"
+  | .raised k => "e " ++ kindStr k
+  | .unmodelled => "unmodelled"
+
+def bigFuel : Nat := 1000000000
+
+def runOp (st : St) (p : Prog Res) : St × String :=
+  if st.dead then (st, "dead")
+  else
+    let f := st.fuel.getD bigFuel
+    match p.run f st.conn with
+    | (c, f', some r) =>
+      ({ st with conn := c, fuel := st.fuel.map fun _ => f', calls := st.calls + (f - f') },
+        resStr r ++ (if c.inTx then " tx=1" else " tx=0"))
+    | (c, f', none) =>
+      ({ st with conn := c, fuel := some 0, dead := true, calls := st.calls + (f - f') }, "dead")
+
+def tokFuel (t : String) : Option (Option Nat) :=
+  if t == "-" then some none else t.toNat?.map some
+
+def tokDir (t : String) : Option Dir :=
+  if t == "in" then some .inbound else if t == "out" then some .outbound else none
+
+def tokOptInt (t : String) : Option (Option Int) :=
+  if t == "-" then some none else t.toInt?.map some
+
+def tokBound (t : String) : Option Bound :=
+  match t.toList with
+  | 'n' :: rest => (String.ofList rest).toInt?.map Bound.int
+  | 'x' :: _ => (Driver.tokBytes t).map Bound.text
+  | _ => none
+
+def tokKeys (t : String) : Option (Option (List Int)) :=
+  if t == "-" then some none
+  else if t == "[]" then some (some [])
+  else ((t.splitOn ",").mapM String.toInt?).map some
+
+def tokOptDir (t : String) : Option (Option Dir) :=
+  if t == "-" then some none else (tokDir t).map some
+
+def mkHandle (k o i : String) : Option Handle := do
+  let k ← k.toInt?
+  let o ← o.toInt?
+  let i ← i.toInt?
+  pure ⟨k, "", "", o, i⟩
 
 def handle (st : St) (cmd : String) (args : List String) : St × String :=
-  (st, "bad-op")
+  match cmd, args with
+  | "start", [f] =>
+    match tokFuel f with
+    | some fuel => runOp { conn := connect {}, fuel := fuel, dead := false, calls := 0 } openP
+    | none => (st, "bad-op")
+  | "restart", [f] =>
+    match tokFuel f with
+    | some fuel => runOp { conn := st.conn.crash, fuel := fuel, dead := false, calls := 0 } openP
+    | none => (st, "bad-op")
+  | "col", [t, s] =>
+    match Driver.tokStr t, Driver.tokStr s with
+    | some t, some s => runOp st (Op.createOrLoad t s).prog
+    | _, _ => (st, "bad-op")
+  | "sessions", [] => runOp st Op.sessions.prog
+  | "persist", [k, o, i, d, m] =>
+    match mkHandle k o i, tokDir d, Driver.tokBytes m with
+    | some h, some d, some m => runOp st (Op.persist m h d).prog
+    | _, _, _ => (st, "bad-op")
+  | "set", [k, o, i, a, b] =>
+    match mkHandle k o i, tokOptInt a, tokOptInt b with
+    | some h, some a, some b => runOp st (Op.setSeqNum h a b).prog
+    | _, _, _ => (st, "bad-op")
+  | "rec", [k, d, lo, hi] =>
+    match mkHandle k "0" "0", tokDir d, tokBound lo, tokBound hi with
+    | some h, some d, some lo, some hi => runOp st (Op.recover h d lo hi).prog
+    | _, _, _, _ => (st, "bad-op")
+  | "rec1", [k, d, b] =>
+    match mkHandle k "0" "0", tokDir d, tokBound b with
+    | some h, some d, some b => runOp st (Op.recoverMsg h d b).prog
+    | _, _, _ => (st, "bad-op")
+  | "getall", [ks, d] =>
+    match tokKeys ks, tokOptDir d with
+    | some ks, some d => runOp st (Op.getAll ks d).prog
+    | _, _ => (st, "bad-op")
+  | "calls", [] => (st, toString st.calls)
+  | "findseq", [m] =>
+    match Driver.tokBytes m with
+    | some m => (st, match findSeqNo m with | some n => s!"some {n}" | none => "none")
+    | none => (st, "bad-op")
+  | "textval", [t] =>
+    match Driver.tokBytes t with
+    | some t => (st, match sqlTextVal t with
+        | .val n => s!"val {n}" | .posInf => "posinf" | .unmodelled => "unmodelled")
+    | none => (st, "bad-op")
+  | _, _ => (st, "bad-op")
 
 end Driver.Journal
